@@ -296,12 +296,12 @@ def outcome(obs):
     return (tuple(repr(s) for s in obs["samplers"]), tuple((e[1], round(e[2], 12)) for e in obs["log"] if e[0] == "learn"))
 
 
-def controlled(fn, prefix=(), mode="sync", horizon=20000):
+def controlled(fn, prefix=(), mode="sync", horizon=20000, sleep_at=None):
     """Run fn() in the calling thread under a Controller (the RL scheduler's queues/threads are virtual once install()
     has run). Returns (controller, value, exception, leaked thread names)."""
     install()
     tracer = vt.make_line_tracer(["black_it/schedulers"]) if mode == "line" else None
-    ctl = vt.Controller(prefix, horizon=horizon)
+    ctl = vt.Controller(prefix, horizon=horizon, sleep_at=sleep_at)
     vt.set_controller(ctl, tracer)
     val, exc = None, None
     try:
@@ -325,7 +325,7 @@ def controlled(fn, prefix=(), mode="sync", horizon=20000):
     return ctl, val, exc, leaked
 
 
-def run_calibrator(cfg, prefix, mode="sync", horizon=40000):
+def run_calibrator(cfg, prefix, mode="sync", horizon=40000, sleep_at=None):
     """Second driver: the REAL Calibrator.calibrate (real samplers, model, loss) on the calibration thread, one calibrate() call per
     session of cfg['shape'], under the controller. Produces the same observation structure as run_protocol, so the same monitor applies."""
     from black_it.calibrator import Calibrator
@@ -359,7 +359,7 @@ def run_calibrator(cfg, prefix, mode="sync", horizon=40000):
                 qa, qo = queue_sizes()
                 obs["sessions"].append({"q_action": qa, "q_outcome": qo, "thread_alive": bool(vt.live_threads())})
 
-    ctl, _, exc, leaked = controlled(go, prefix, mode=mode, horizon=horizon)
+    ctl, _, exc, leaked = controlled(go, prefix, mode=mode, horizon=horizon, sleep_at=sleep_at)
     if exc is not None:
         if isinstance(exc, vt.Abort):
             obs["abort"] = str(exc)
@@ -375,6 +375,6 @@ def run_calibrator(cfg, prefix, mode="sync", horizon=40000):
     obs["n_samplers"] = len(sched.samplers)
     obs["halton_id"] = halton_index(sched)
     obs["final_Q"] = [float(x) for x in getattr(agent, "Q", [])]
-    if obs["abort"] == "stop":
+    if obs["abort"] in ("stop", "sleep-blocked"):
         obs["abort"] = None
     return ctl, obs
